@@ -84,12 +84,15 @@ PROPS = {
                 store_scan=lambda area, kind: area == "timestep",
                 explanation="E1: the real body of reset_initial_conditions resets every season-state field to the value a fresh run starts from (counters, flags, factors, "
                             "crop-dependent values, aeration counters, potential fluxes), restores the configured water content from a PRIVATE copy (th is not thini) and the "
-                            "initial ponding; update_time calls it exactly when a season starts; BOUNDED: season k of a multi-season run vs a fresh single-season run, bitwise"),
+                            "initial ponding; update_time calls it exactly when a season starts; E2 store scan of timestep/ (the reset and the clock write nothing outside their declared frames - "
+                            "e.g. not into the weather records, a channel from one season into the next); BOUNDED: season k of a multi-season run vs a fresh single-season run, bitwise "
+                            "(incl. thermal-time crops flowering in the hottest weeks)"),
     "C20": dict(functions=["rainfall_partition", "irrigation", "infiltration", "soil_evaporation", "solution_single_time_step", "reset_initial_conditions#body"], level="other", bounded=dict(module="c20_inert.py"),
                 explanation="E1: read-guards (a parameter of a switched-off feature is never read): bund height without bunds, curve-number percentage under inhibited runoff, "
                             "strategy parameters of other strategies, efficiency out of season, mulch parameters without mulches, wetted fraction without irrigation; "
                             "neutral values: irrigation applies nothing at daily/seasonal maximum 0, depth 0 or an empty schedule day (function and reported row); the mulch-adjusted "
                             "potential evaporation equals the unadjusted one at cover 0 or factor 0 (cut assertion where the only reads of the mulch parameters occur); "
+                            "the season reset puts no water on a field without effective bunds whatever the bund settings (reset_initial_conditions#body); "
                             "BOUNDED: base-vs-transformed whole-run comparison incl. neutral values and the explicit default harvest date"),
 }
 
